@@ -23,7 +23,7 @@ def junkE : Expr → List Nat
   | .letE _ a b => junkE a ++ junkE b
   | .letTup _ a b => junkE a ++ junkE b
   | .assign _ a b => junkE a ++ junkE b
-  | .ite c a b => junkE c ++ (junkE a ++ sitesE b)
+  | .ite c a b => junkE c ++ (junkE a ++ junkE b)
   | .tup es => junkL es
   | .app f args => junkE f ++ junkL args
   | .mem a _ => junkE a
@@ -38,6 +38,108 @@ theorem stateless_of_isStateless {x : Option (List LCell)} {s : List LCell} (h :
     statelessCells s = true := by
   subst hx; exact h
 
+/-! ### an expression whose published cells are all stateless is in the class
+
+After the repair of finding F3 `pubE` lists the cells of BOTH arms of every `if`, so "the cells published for the `else` arm
+are stateless" already says that the `else` arm is in the class (the class predicate `armsZE` does not inspect it). -/
+
+theorem statelessCells_append : ∀ (a b : List LCell),
+    statelessCells (a ++ b) = (statelessCells a && statelessCells b)
+  | [], b => by simp [statelessCells]
+  | c :: a, b => by simp [statelessCells, statelessCells_append a b, Bool.and_assoc]
+
+/-- a table entry without state is marked `ok` -/
+def StatelessOk (tbl : Table) (ok : String → Bool) : Prop :=
+  ∀ f lay, tbl f = some lay → lay.self.isNone = true → statelessCells lay.cells = true → ok f = true
+
+mutual
+theorem armsZE_of_stateless (tbl : Table) (ok : String → Bool) (hT : StatelessOk tbl ok) :
+    ∀ (e : Expr) (seg : List LCell), pubE tbl e = some seg → statelessCells seg = true → armsZE tbl ok e = true
+  | .lit _, _, _, _ => by rw [armsZE]
+  | .var _, _, _, _ => by rw [armsZE]
+  | .now, _, _, _ => by rw [armsZE]
+  | .samplerate, _, _, _ => by rw [armsZE]
+  | .self, _, _, _ => by rw [armsZE]
+  | .lam _ _, _, _, _ => by rw [armsZE]
+  | .un _ a, seg, h, hz => by rw [pubE] at h; rw [armsZE]; exact armsZE_of_stateless tbl ok hT a seg h hz
+  | .proj a _, seg, h, hz => by rw [pubE] at h; rw [armsZE]; exact armsZE_of_stateless tbl ok hT a seg h hz
+  | .bin _ a b, seg, h, hz => by
+    obtain ⟨s1, s2, h1, h2, rfl⟩ := pubE_bin_inv h
+    rw [statelessCells_append, Bool.and_eq_true] at hz
+    rw [armsZE, Bool.and_eq_true]
+    exact ⟨armsZE_of_stateless tbl ok hT a s1 h1 hz.1, armsZE_of_stateless tbl ok hT b s2 h2 hz.2⟩
+  | .letE _ a b, seg, h, hz => by
+    obtain ⟨s1, s2, h1, h2, rfl⟩ := pubE_letE_inv h
+    rw [statelessCells_append, Bool.and_eq_true] at hz
+    rw [armsZE, Bool.and_eq_true]
+    exact ⟨armsZE_of_stateless tbl ok hT a s1 h1 hz.1, armsZE_of_stateless tbl ok hT b s2 h2 hz.2⟩
+  | .letTup _ a b, seg, h, hz => by
+    obtain ⟨s1, s2, h1, h2, rfl⟩ := pubE_letTup_inv h
+    rw [statelessCells_append, Bool.and_eq_true] at hz
+    rw [armsZE, Bool.and_eq_true]
+    exact ⟨armsZE_of_stateless tbl ok hT a s1 h1 hz.1, armsZE_of_stateless tbl ok hT b s2 h2 hz.2⟩
+  | .assign _ a b, seg, h, hz => by
+    obtain ⟨s1, s2, h1, h2, rfl⟩ := pubE_assign_inv h
+    rw [statelessCells_append, Bool.and_eq_true] at hz
+    rw [armsZE, Bool.and_eq_true]
+    exact ⟨armsZE_of_stateless tbl ok hT a s1 h1 hz.1, armsZE_of_stateless tbl ok hT b s2 h2 hz.2⟩
+  | .ite c a b, seg, h, hz => by
+    obtain ⟨sc, sa, sb, hc, h1, h2, rfl⟩ := pubE_ite_inv h
+    rw [statelessCells_append, statelessCells_append] at hz
+    simp only [Bool.and_eq_true] at hz
+    rw [armsZE]
+    simp only [Bool.and_eq_true]
+    exact ⟨⟨⟨armsZE_of_stateless tbl ok hT c sc hc hz.1, armsZE_of_stateless tbl ok hT a sa h1 hz.2.1⟩,
+      by rw [h1]; exact hz.2.1⟩, by rw [h2]; exact hz.2.2⟩
+  | .tup es, seg, h, hz => by rw [pubE] at h; rw [armsZE]; exact armsZL_of_stateless tbl ok hT es seg h hz
+  | .app f args, seg, h, hz => by
+    obtain ⟨s1, s2, h1, h2, rfl⟩ := pubE_app_inv h
+    rw [statelessCells_append, Bool.and_eq_true] at hz
+    rw [armsZE, Bool.and_eq_true]
+    exact ⟨armsZE_of_stateless tbl ok hT f s1 h1 hz.1, armsZL_of_stateless tbl ok hT args s2 h2 hz.2⟩
+  | .mem a site, seg, h, hz => by
+    obtain ⟨s, _, rfl⟩ := pubE_mem_inv h
+    rw [statelessCells_append] at hz
+    simp [statelessCells, statelessCell] at hz
+  | .delay n a t site, seg, h, hz => by
+    obtain ⟨s1, s2, _, _, rfl⟩ := pubE_delay_inv h
+    rw [statelessCells_append] at hz
+    simp [statelessCells, statelessCell] at hz
+  | .call f args site, seg, h, hz => by
+    obtain ⟨s, lay, h1, hf, rfl⟩ := pubE_call_inv h
+    rw [statelessCells_append, Bool.and_eq_true] at hz
+    rw [armsZE, Bool.and_eq_true]
+    have hc := hz.2
+    simp only [statelessCells, statelessCell, Bool.and_true, Bool.and_eq_true] at hc
+    exact ⟨armsZL_of_stateless tbl ok hT args s h1 hz.1, hT f lay hf hc.1 hc.2⟩
+theorem armsZL_of_stateless (tbl : Table) (ok : String → Bool) (hT : StatelessOk tbl ok) :
+    ∀ (es : List Expr) (seg : List LCell), pubL tbl es = some seg → statelessCells seg = true → armsZL tbl ok es = true
+  | [], _, _, _ => by rw [armsZL]
+  | e :: es, seg, h, hz => by
+    obtain ⟨s1, s2, h1, h2, rfl⟩ := pubL_cons_inv h
+    rw [statelessCells_append, Bool.and_eq_true] at hz
+    rw [armsZL, Bool.and_eq_true]
+    exact ⟨armsZE_of_stateless tbl ok hT e s1 h1 hz.1, armsZL_of_stateless tbl ok hT es s2 h2 hz.2⟩
+end
+
+/-- the function table has the property at every depth -/
+theorem table_statelessOk (P : Prog) : ∀ n, StatelessOk (table P n) (okTableZ P n)
+  | 0 => by intro f lay h; simp [table] at h
+  | n + 1 => by
+    intro f lay h hself hz
+    simp only [table] at h
+    cases hd : findFn P.fns f with
+    | none => simp [hd] at h
+    | some d =>
+      simp only [hd] at h
+      cases hb : pubE (table P n) d.body with
+      | none => simp [hb] at h
+      | some cells =>
+        simp only [hb, Option.some.injEq] at h
+        subst h
+        simp only [okTableZ, hd]
+        exact armsZE_of_stateless _ _ (table_statelessOk P n) d.body cells hb hz
+
 /-! ### the published cells are visited (`VisitsZ`) -/
 
 def TableVisitsZ (P : Prog) (tbl : Table) (ok : String → Bool) : Prop :=
@@ -45,7 +147,7 @@ def TableVisitsZ (P : Prog) (tbl : Table) (ok : String → Bool) : Prop :=
     d.selfShape = lay.self ∧ VisitsZ P d.body lay.cells (junkE d.body) ∧ ∀ x ∈ junkE d.body, x ∉ sitesOf lay.cells
 
 mutual
-theorem pubE_visitsZ (P : Prog) (tbl : Table) (ok : String → Bool) (ht : TableVisitsZ P tbl ok) :
+theorem pubE_visitsZ (P : Prog) (tbl : Table) (ok : String → Bool) (ht : TableVisitsZ P tbl ok) (hT : StatelessOk tbl ok) :
     ∀ (e : Expr) (seg : List LCell), armsZE tbl ok e = true → pubE tbl e = some seg → VisitsZ P e seg (junkE e)
   | .lit _, seg, _, h => by rw [pubE] at h; cases h; exact .lit
   | .var _, seg, _, h => by rw [pubE] at h; cases h; exact .var
@@ -55,26 +157,26 @@ theorem pubE_visitsZ (P : Prog) (tbl : Table) (ok : String → Bool) (ht : Table
   | .lam _ _, seg, _, h => by rw [pubE] at h; cases h; exact .lam
   | .un _ a, seg, ha, h => by
     rw [pubE] at h; rw [armsZE] at ha; rw [junkE]
-    exact .un (pubE_visitsZ P tbl ok ht a seg ha h)
+    exact .un (pubE_visitsZ P tbl ok ht hT a seg ha h)
   | .proj a _, seg, ha, h => by
     rw [pubE] at h; rw [armsZE] at ha; rw [junkE]
-    exact .proj (pubE_visitsZ P tbl ok ht a seg ha h)
+    exact .proj (pubE_visitsZ P tbl ok ht hT a seg ha h)
   | .bin _ a b, seg, ha, h => by
     obtain ⟨s1, s2, h1, h2, rfl⟩ := pubE_bin_inv h
     rw [armsZE, Bool.and_eq_true] at ha; rw [junkE]
-    exact .bin (pubE_visitsZ P tbl ok ht a s1 ha.1 h1) (pubE_visitsZ P tbl ok ht b s2 ha.2 h2)
+    exact .bin (pubE_visitsZ P tbl ok ht hT a s1 ha.1 h1) (pubE_visitsZ P tbl ok ht hT b s2 ha.2 h2)
   | .letE _ a b, seg, ha, h => by
     obtain ⟨s1, s2, h1, h2, rfl⟩ := pubE_letE_inv h
     rw [armsZE, Bool.and_eq_true] at ha; rw [junkE]
-    exact .letE (pubE_visitsZ P tbl ok ht a s1 ha.1 h1) (pubE_visitsZ P tbl ok ht b s2 ha.2 h2)
+    exact .letE (pubE_visitsZ P tbl ok ht hT a s1 ha.1 h1) (pubE_visitsZ P tbl ok ht hT b s2 ha.2 h2)
   | .letTup _ a b, seg, ha, h => by
     obtain ⟨s1, s2, h1, h2, rfl⟩ := pubE_letTup_inv h
     rw [armsZE, Bool.and_eq_true] at ha; rw [junkE]
-    exact .letTup (pubE_visitsZ P tbl ok ht a s1 ha.1 h1) (pubE_visitsZ P tbl ok ht b s2 ha.2 h2)
+    exact .letTup (pubE_visitsZ P tbl ok ht hT a s1 ha.1 h1) (pubE_visitsZ P tbl ok ht hT b s2 ha.2 h2)
   | .assign _ a b, seg, ha, h => by
     obtain ⟨s1, s2, h1, h2, rfl⟩ := pubE_assign_inv h
     rw [armsZE, Bool.and_eq_true] at ha; rw [junkE]
-    exact .assign (pubE_visitsZ P tbl ok ht a s1 ha.1 h1) (pubE_visitsZ P tbl ok ht b s2 ha.2 h2)
+    exact .assign (pubE_visitsZ P tbl ok ht hT a s1 ha.1 h1) (pubE_visitsZ P tbl ok ht hT b s2 ha.2 h2)
   | .ite c a b, seg, ha, h => by
     obtain ⟨sc, sa, sb, hc, h1, h2, rfl⟩ := pubE_ite_inv h
     rw [armsZE] at ha
@@ -82,39 +184,39 @@ theorem pubE_visitsZ (P : Prog) (tbl : Table) (ok : String → Bool) (ht : Table
     obtain ⟨⟨⟨oc, oa⟩, ea⟩, eb⟩ := ha
     have za := stateless_of_isStateless ea h1
     have zb := stateless_of_isStateless eb h2
-    rw [stateless_sizeL sa za, stateless_sizeL sb zb]
-    simp only [Nat.lt_irrefl, if_false]
+    have ob := armsZE_of_stateless tbl ok hT b sb h2 zb
     rw [junkE]
-    exact .ite (pubE_visitsZ P tbl ok ht c sc oc hc) (pubE_visitsZ P tbl ok ht a sa oa h1) za
+    exact .ite (pubE_visitsZ P tbl ok ht hT c sc oc hc) (pubE_visitsZ P tbl ok ht hT a sa oa h1) za
+      (pubE_visitsZ P tbl ok ht hT b sb ob h2) zb
   | .tup es, seg, ha, h => by
     rw [pubE] at h; rw [armsZE] at ha; rw [junkE]
-    exact .tup (pubL_visitsZ P tbl ok ht es seg ha h)
+    exact .tup (pubL_visitsZ P tbl ok ht hT es seg ha h)
   | .app f args, seg, ha, h => by
     obtain ⟨s1, s2, h1, h2, rfl⟩ := pubE_app_inv h
     rw [armsZE, Bool.and_eq_true] at ha; rw [junkE]
-    exact .app (pubE_visitsZ P tbl ok ht f s1 ha.1 h1) (pubL_visitsZ P tbl ok ht args s2 ha.2 h2)
+    exact .app (pubE_visitsZ P tbl ok ht hT f s1 ha.1 h1) (pubL_visitsZ P tbl ok ht hT args s2 ha.2 h2)
   | .mem a site, seg, ha, h => by
     obtain ⟨s, h1, rfl⟩ := pubE_mem_inv h
     rw [armsZE] at ha; rw [junkE]
-    exact .mem (pubE_visitsZ P tbl ok ht a s ha h1)
+    exact .mem (pubE_visitsZ P tbl ok ht hT a s ha h1)
   | .delay n a t site, seg, ha, h => by
     obtain ⟨s1, s2, h1, h2, rfl⟩ := pubE_delay_inv h
     rw [armsZE, Bool.and_eq_true] at ha; rw [junkE]
-    exact .delay (pubE_visitsZ P tbl ok ht a s1 ha.1 h1) (pubE_visitsZ P tbl ok ht t s2 ha.2 h2)
+    exact .delay (pubE_visitsZ P tbl ok ht hT a s1 ha.1 h1) (pubE_visitsZ P tbl ok ht hT t s2 ha.2 h2)
   | .call f args site, seg, ha, h => by
     obtain ⟨s, lay, h1, hf, rfl⟩ := pubE_call_inv h
     rw [armsZE, Bool.and_eq_true] at ha; rw [junkE]
     exact .call (J' := match findFn P.fns f with | some d => junkE d.body | none => [])
-      (pubL_visitsZ P tbl ok ht args s ha.1 h1) (fun d hd => (ht f lay hf ha.2 d hd).1)
+      (pubL_visitsZ P tbl ok ht hT args s ha.1 h1) (fun d hd => (ht f lay hf ha.2 d hd).1)
       (fun d hd => by rw [hd]; exact (ht f lay hf ha.2 d hd).2.1)
       (fun d hd => by rw [hd]; exact (ht f lay hf ha.2 d hd).2.2)
-theorem pubL_visitsZ (P : Prog) (tbl : Table) (ok : String → Bool) (ht : TableVisitsZ P tbl ok) :
+theorem pubL_visitsZ (P : Prog) (tbl : Table) (ok : String → Bool) (ht : TableVisitsZ P tbl ok) (hT : StatelessOk tbl ok) :
     ∀ (es : List Expr) (seg : List LCell), armsZL tbl ok es = true → pubL tbl es = some seg → VisitsZL P es seg (junkL es)
   | [], seg, _, h => by rw [pubL] at h; cases h; exact .nil
   | e :: es, seg, ha, h => by
     obtain ⟨s1, s2, h1, h2, rfl⟩ := pubL_cons_inv h
     rw [armsZL, Bool.and_eq_true] at ha; rw [junkL]
-    exact .cons (pubE_visitsZ P tbl ok ht e s1 ha.1 h1) (pubL_visitsZ P tbl ok ht es s2 ha.2 h2)
+    exact .cons (pubE_visitsZ P tbl ok ht hT e s1 ha.1 h1) (pubL_visitsZ P tbl ok ht hT es s2 ha.2 h2)
 end
 
 /-! ### junk sites are not sites of the layout -/
@@ -161,7 +263,7 @@ theorem JunkOk.arms {la lb : List (Nat × Nat)} {sa : List LCell} {Ja : List Nat
     · exact hd x (ga.2 x hin) x hx rfl
 
 mutual
-theorem pubE_junk (tbl : Table) (ok : String → Bool) (ht : TableOk tbl) :
+theorem pubE_junk (tbl : Table) (ok : String → Bool) (ht : TableOk tbl) (hT : StatelessOk tbl ok) :
     ∀ (e : Expr) (seg : List LCell), LensOk (siteLens e) → armsZE tbl ok e = true → pubE tbl e = some seg →
       JunkOk (siteLens e) seg (junkE e)
   | .lit _, seg, _, _, _ => by rw [junkE]; exact JunkOk.nil _ _
@@ -172,56 +274,56 @@ theorem pubE_junk (tbl : Table) (ok : String → Bool) (ht : TableOk tbl) :
   | .lam _ _, seg, _, _, _ => by rw [junkE]; exact JunkOk.nil _ _
   | .un _ a, seg, hl, ha, h => by
     rw [pubE] at h; rw [siteLens] at hl ⊢; rw [armsZE] at ha; rw [junkE]
-    exact pubE_junk tbl ok ht a seg hl ha h
+    exact pubE_junk tbl ok ht hT a seg hl ha h
   | .proj a _, seg, hl, ha, h => by
     rw [pubE] at h; rw [siteLens] at hl ⊢; rw [armsZE] at ha; rw [junkE]
-    exact pubE_junk tbl ok ht a seg hl ha h
+    exact pubE_junk tbl ok ht hT a seg hl ha h
   | .bin _ a b, seg, hl, ha, h => by
     obtain ⟨s1, s2, h1, h2, rfl⟩ := pubE_bin_inv h
     rw [siteLens] at hl ⊢; rw [armsZE, Bool.and_eq_true] at ha; rw [junkE]
     exact JunkOk.append hl (pubE_good tbl ht a s1 hl.left h1) (pubE_good tbl ht b s2 hl.right h2)
-      (pubE_junk tbl ok ht a s1 hl.left ha.1 h1) (pubE_junk tbl ok ht b s2 hl.right ha.2 h2)
+      (pubE_junk tbl ok ht hT a s1 hl.left ha.1 h1) (pubE_junk tbl ok ht hT b s2 hl.right ha.2 h2)
   | .letE _ a b, seg, hl, ha, h => by
     obtain ⟨s1, s2, h1, h2, rfl⟩ := pubE_letE_inv h
     rw [siteLens] at hl ⊢; rw [armsZE, Bool.and_eq_true] at ha; rw [junkE]
     exact JunkOk.append hl (pubE_good tbl ht a s1 hl.left h1) (pubE_good tbl ht b s2 hl.right h2)
-      (pubE_junk tbl ok ht a s1 hl.left ha.1 h1) (pubE_junk tbl ok ht b s2 hl.right ha.2 h2)
+      (pubE_junk tbl ok ht hT a s1 hl.left ha.1 h1) (pubE_junk tbl ok ht hT b s2 hl.right ha.2 h2)
   | .letTup _ a b, seg, hl, ha, h => by
     obtain ⟨s1, s2, h1, h2, rfl⟩ := pubE_letTup_inv h
     rw [siteLens] at hl ⊢; rw [armsZE, Bool.and_eq_true] at ha; rw [junkE]
     exact JunkOk.append hl (pubE_good tbl ht a s1 hl.left h1) (pubE_good tbl ht b s2 hl.right h2)
-      (pubE_junk tbl ok ht a s1 hl.left ha.1 h1) (pubE_junk tbl ok ht b s2 hl.right ha.2 h2)
+      (pubE_junk tbl ok ht hT a s1 hl.left ha.1 h1) (pubE_junk tbl ok ht hT b s2 hl.right ha.2 h2)
   | .assign _ a b, seg, hl, ha, h => by
     obtain ⟨s1, s2, h1, h2, rfl⟩ := pubE_assign_inv h
     rw [siteLens] at hl ⊢; rw [armsZE, Bool.and_eq_true] at ha; rw [junkE]
     exact JunkOk.append hl (pubE_good tbl ht a s1 hl.left h1) (pubE_good tbl ht b s2 hl.right h2)
-      (pubE_junk tbl ok ht a s1 hl.left ha.1 h1) (pubE_junk tbl ok ht b s2 hl.right ha.2 h2)
+      (pubE_junk tbl ok ht hT a s1 hl.left ha.1 h1) (pubE_junk tbl ok ht hT b s2 hl.right ha.2 h2)
   | .ite c a b, seg, hl, ha, h => by
     obtain ⟨sc, sa, sb, hc, h1, h2, rfl⟩ := pubE_ite_inv h
     rw [siteLens] at hl ⊢; rw [junkE]
     rw [armsZE] at ha
     simp only [Bool.and_eq_true] at ha
-    obtain ⟨⟨⟨oc, oa⟩, ea⟩, eb⟩ := ha
-    have za := stateless_of_isStateless ea h1
-    have zb := stateless_of_isStateless eb h2
-    rw [stateless_sizeL sa za, stateless_sizeL sb zb]
-    simp only [Nat.lt_irrefl, if_false]
+    obtain ⟨⟨⟨oc, oa⟩, _⟩, eb⟩ := ha
+    have ob := armsZE_of_stateless tbl ok hT b sb h2 (stateless_of_isStateless eb h2)
     have ga := pubE_good tbl ht a sa hl.right.left h1
-    exact JunkOk.append hl (pubE_good tbl ht c sc hl.left hc) (ga.left _) (pubE_junk tbl ok ht c sc hl.left oc hc)
-      (JunkOk.arms hl.right ga (pubE_junk tbl ok ht a sa hl.right.left oa h1))
+    have gb := pubE_good tbl ht b sb hl.right.right h2
+    exact JunkOk.append hl (pubE_good tbl ht c sc hl.left hc) (Good.append hl.right ga gb)
+      (pubE_junk tbl ok ht hT c sc hl.left oc hc)
+      (JunkOk.append hl.right ga gb (pubE_junk tbl ok ht hT a sa hl.right.left oa h1)
+        (pubE_junk tbl ok ht hT b sb hl.right.right ob h2))
   | .tup es, seg, hl, ha, h => by
     rw [pubE] at h; rw [siteLens] at hl ⊢; rw [armsZE] at ha; rw [junkE]
-    exact pubL_junk tbl ok ht es seg hl ha h
+    exact pubL_junk tbl ok ht hT es seg hl ha h
   | .app f args, seg, hl, ha, h => by
     obtain ⟨s1, s2, h1, h2, rfl⟩ := pubE_app_inv h
     rw [siteLens] at hl ⊢; rw [armsZE, Bool.and_eq_true] at ha; rw [junkE]
     exact JunkOk.append hl (pubE_good tbl ht f s1 hl.left h1) (pubL_good tbl ht args s2 hl.right h2)
-      (pubE_junk tbl ok ht f s1 hl.left ha.1 h1) (pubL_junk tbl ok ht args s2 hl.right ha.2 h2)
+      (pubE_junk tbl ok ht hT f s1 hl.left ha.1 h1) (pubL_junk tbl ok ht hT args s2 hl.right ha.2 h2)
   | .mem a site, seg, hl, ha, h => by
     obtain ⟨s, h1, rfl⟩ := pubE_mem_inv h
     rw [siteLens] at hl ⊢; rw [armsZE] at ha; rw [junkE]
     have := JunkOk.append hl (pubE_good tbl ht a s hl.left h1) (Good.single (.mem site) 0 (by simp [LayOk]))
-      (pubE_junk tbl ok ht a s hl.left ha h1) (JunkOk.nil _ _)
+      (pubE_junk tbl ok ht hT a s hl.left ha h1) (JunkOk.nil _ _)
     simpa using this
   | .delay n a t site, seg, hl, ha, h => by
     obtain ⟨s1, s2, h1, h2, rfl⟩ := pubE_delay_inv h
@@ -229,7 +331,7 @@ theorem pubE_junk (tbl : Table) (ok : String → Bool) (ht : TableOk tbl) :
     have hn : n < 2 ^ 64 := hl.2 (site, n) (by simp)
     have g12 := Good.append hl.left (pubE_good tbl ht a s1 hl.left.left h1) (pubE_good tbl ht t s2 hl.left.right h2)
     have j12 := JunkOk.append hl.left (pubE_good tbl ht a s1 hl.left.left h1) (pubE_good tbl ht t s2 hl.left.right h2)
-      (pubE_junk tbl ok ht a s1 hl.left.left ha.1 h1) (pubE_junk tbl ok ht t s2 hl.left.right ha.2 h2)
+      (pubE_junk tbl ok ht hT a s1 hl.left.left ha.1 h1) (pubE_junk tbl ok ht hT t s2 hl.left.right ha.2 h2)
     have := JunkOk.append hl g12 (Good.single (.delay site n) n (by simpa [LayOk] using hn)) j12 (JunkOk.nil _ _)
     simpa using this
   | .call f args site, seg, hl, ha, h => by
@@ -237,9 +339,9 @@ theorem pubE_junk (tbl : Table) (ok : String → Bool) (ht : TableOk tbl) :
     rw [siteLens] at hl ⊢; rw [armsZE, Bool.and_eq_true] at ha; rw [junkE]
     have := JunkOk.append hl (pubL_good tbl ht args s hl.left h1)
       (Good.single (.child site lay.self lay.cells) 0 (by simpa [LayOk] using ht f lay hf))
-      (pubL_junk tbl ok ht args s hl.left ha.1 h1) (JunkOk.nil _ _)
+      (pubL_junk tbl ok ht hT args s hl.left ha.1 h1) (JunkOk.nil _ _)
     simpa using this
-theorem pubL_junk (tbl : Table) (ok : String → Bool) (ht : TableOk tbl) :
+theorem pubL_junk (tbl : Table) (ok : String → Bool) (ht : TableOk tbl) (hT : StatelessOk tbl ok) :
     ∀ (es : List Expr) (seg : List LCell), LensOk (siteLensL es) → armsZL tbl ok es = true → pubL tbl es = some seg →
       JunkOk (siteLensL es) seg (junkL es)
   | [], seg, _, _, _ => by rw [junkL]; exact JunkOk.nil _ _
@@ -247,7 +349,7 @@ theorem pubL_junk (tbl : Table) (ok : String → Bool) (ht : TableOk tbl) :
     obtain ⟨s1, s2, h1, h2, rfl⟩ := pubL_cons_inv h
     rw [siteLensL] at hl ⊢; rw [armsZL, Bool.and_eq_true] at ha; rw [junkL]
     exact JunkOk.append hl (pubE_good tbl ht e s1 hl.left h1) (pubL_good tbl ht es s2 hl.right h2)
-      (pubE_junk tbl ok ht e s1 hl.left ha.1 h1) (pubL_junk tbl ok ht es s2 hl.right ha.2 h2)
+      (pubE_junk tbl ok ht hT e s1 hl.left ha.1 h1) (pubL_junk tbl ok ht hT es s2 hl.right ha.2 h2)
 end
 
 /-- the function table has both properties at every depth -/
@@ -262,13 +364,14 @@ theorem table_visitsZ (P : Prog) (hs : SitesUnique P) : ∀ n, TableVisitsZ P (t
     | some cells =>
       simp only [hb, Option.some.injEq] at h
       subst h
-      exact ⟨rfl, pubE_visitsZ P _ _ (table_visitsZ P hs n) d.body cells hok hb,
-        (pubE_junk _ _ (table_ok P hs n) d.body cells (hs d (findFn_mem hd)) hok hb).2⟩
+      exact ⟨rfl, pubE_visitsZ P _ _ (table_visitsZ P hs n) (table_statelessOk P n) d.body cells hok hb,
+        (pubE_junk _ _ (table_ok P hs n) (table_statelessOk P n) d.body cells (hs d (findFn_mem hd)) hok hb).2⟩
 
 theorem publishEN_visitsZ (n : Nat) (P : Prog) (e : Expr) (seg : List LCell) (hs : SitesUnique P) (he : SitesOk e)
     (ha : noStatefulInArmsN n P e = true) (h : publishEN n P e = some seg) :
     VisitsZ P e seg (junkE e) ∧ ∀ x ∈ junkE e, x ∉ sitesOf seg :=
-  ⟨pubE_visitsZ P _ _ (table_visitsZ P hs n) e seg ha h, (pubE_junk _ _ (table_ok P hs n) e seg he ha h).2⟩
+  ⟨pubE_visitsZ P _ _ (table_visitsZ P hs n) (table_statelessOk P n) e seg ha h,
+    (pubE_junk _ _ (table_ok P hs n) (table_statelessOk P n) e seg he ha h).2⟩
 
 /-! ### the narrow class is part of the wide one -/
 
